@@ -1,4 +1,5 @@
 import Gtree.Lemmas.Output
+import Gtree.Lemmas.PathLex
 /-
   C05 — walk visits the rendered tree: same nodes, same order, consistent node facts.
   In the model both the text printer and the walker consume the same list of visits (`growRoot`), as in
@@ -57,5 +58,60 @@ theorem C05_callback_never_fails (vs : List Visit) : walkVisits vs none = (vs, n
 
 /-- leaving the iterator after `k` items: exactly the first `k` visits have been seen -/
 theorem C05_iter_break (f : Fmt) (t : T) (k : Nat) : walkIterRoot f t (some k) = (growRoot f t).take k := rfl
+
+end Gtree
+
+namespace Gtree
+
+/-- the paths of the nodes below `pre`, in pre-order: the names from the root joined by '/' -/
+def specPaths (pre : List Bytes) : List T → List Bytes
+  | [] => []
+  | .mk n ks :: rest => joinSlash (pre ++ [n]) :: specPaths (pre ++ [n]) ks ++ specPaths pre rest
+
+mutual
+/-- every name in the tree is a single valid path element -/
+def AllElemT : T → Prop
+  | .mk n ks => Elem n ∧ AllElemL ks
+def AllElemL : List T → Prop
+  | [] => True
+  | t :: ts => AllElemT t ∧ AllElemL ts
+end
+
+theorem growKids_paths (f : Fmt) (rn : Bytes) (hr : Elem rn) :
+    ∀ (ks : List T) (anc : List Anc) (lvl : Nat), AllElemL ks → (∀ a ∈ anc, Elem a.1) →
+      (growKids f rn anc lvl ks).map Visit.path = specPaths (rn :: anc.reverse.map (·.1)) ks
+  | [], _, _, _, _ => by simp [growKids, specPaths]
+  | [T.mk n ch], anc, lvl, hk, ha => by
+      rw [AllElemL, AllElemT] at hk
+      obtain ⟨⟨hn, hch⟩, _⟩ := hk
+      have ih := growKids_paths f rn hr ch ((n, true) :: anc) (lvl + 1) hch (by
+        intro a h; rcases List.mem_cons.mp h with rfl | h
+        · exact hn
+        · exact ha a h)
+      simp only [growKids, growNode, List.map_cons, specPaths, List.append_nil]
+      rw [ih, pathOf_valid rn n anc hr hn ha]
+      simp
+  | T.mk n ch :: c2 :: cs, anc, lvl, hk, ha => by
+      rw [AllElemL, AllElemT] at hk
+      obtain ⟨⟨hn, hch⟩, hrest⟩ := hk
+      have ih1 := growKids_paths f rn hr ch ((n, false) :: anc) (lvl + 1) hch (by
+        intro a h; rcases List.mem_cons.mp h with rfl | h
+        · exact hn
+        · exact ha a h)
+      have ih2 := growKids_paths f rn hr (c2 :: cs) anc lvl hrest ha
+      rw [growKids, List.map_append, ih2]
+      simp only [growNode, List.map_cons, specPaths]
+      rw [ih1, pathOf_valid rn n anc hr hn ha]
+      simp
+termination_by ks => sizeOf ks
+
+/-- Path: for names that are single path elements, the path of every visited node is the names from
+    the root joined by '/' -/
+theorem C05_path (f : Fmt) (t : T) (h : AllElemT t) : (growRoot f t).map Visit.path = specPaths [] [t] := by
+  cases t with
+  | mk n ks =>
+    rw [AllElemT] at h
+    have := growKids_paths f n h.1 ks [] 2 h.2 (by simp)
+    simp [growRoot, specPaths, this, joinSlash]
 
 end Gtree
